@@ -1,7 +1,7 @@
 // Stand-in for the CUDA runtime, nvector_cuda and sunmatrix_cusparse names used by the generated cuSPARSE sources, so that
 // the rendered kernels can be compiled by g++ and run sequentially on the host (one thread, one block: the grid-stride loop of a
-// kernel then visits every system in turn).  The harness rewrites `Kernel<<<...>>>(args)` to `Kernel(args)` in a copy of the
-// rendered file; nothing else of the file is touched.  Modelled API (not CUDA): in the trusted base of channel C only.
+// kernel then visits every system in turn).  The harness rewrites `Kernel<<<g, b, ...>>>(args)` to `SHIM_LAUNCH(Kernel, g, b, args)` in a copy
+// of the rendered file; nothing else of the file is touched.  Modelled API (not CUDA): in the trusted base of channel C only.
 #ifndef CUDA_SHIM_H
 #define CUDA_SHIM_H
 #include <algorithm>
@@ -35,12 +35,24 @@ inline cudaError_t cudaFree(void *p) { free(p); return cudaSuccess; }
 inline cudaError_t cudaGetLastError() { return cudaSuccess; }
 inline cudaError_t cudaDeviceSynchronize() { return cudaSuccess; }
 inline const char *cudaGetErrorName(cudaError_t) { return "cudaShim"; }
+// launch geometry of the host run: one block of SHIM_THREADS threads (environment variable, default 1).  With 1 thread the
+// grid-stride loop of a kernel visits every system in turn; with as many threads as systems every thread serves one system (the
+// geometry of the package's own execution policy).  The threads run one after the other.
+inline size_t _shim_threads() { const char *e = getenv("SHIM_THREADS"); long t = e ? atol(e) : 1; return t > 0 ? (size_t)t : 1; }
 struct _ExecPolicyShim {
     cudaStream_t s = 0;
     cudaStream_t *stream() { return &s; }
-    size_t blockSize() { return 1; }
+    size_t blockSize() { return _shim_threads(); }
     size_t gridSize(size_t) { return 1; }
 };
+// `Kernel<<<grid, block, shmem, stream>>>(args)` is rewritten by the harness to `SHIM_LAUNCH(Kernel, grid, block, args)`
+#define SHIM_LAUNCH(K, G, B, ...)                                                                   \
+    do {                                                                                            \
+        gridDim.x = (unsigned)(G); blockDim.x = (unsigned)(B);                                      \
+        for (blockIdx.x = 0; blockIdx.x < gridDim.x; blockIdx.x++)                                  \
+            for (threadIdx.x = 0; threadIdx.x < blockDim.x; threadIdx.x++) K(__VA_ARGS__);          \
+        blockIdx.x = 0; threadIdx.x = 0;                                                            \
+    } while (0)
 struct _N_VectorContent_CudaShim { _ExecPolicyShim *stream_exec_policy; };
 typedef _N_VectorContent_CudaShim *N_VectorContent_Cuda;
 inline realtype *N_VGetDeviceArrayPointer_Cuda(N_Vector v) { return v->data; }
